@@ -27,6 +27,7 @@ func HStrictParseOfEncode() {
 func HDecodeLiberal() {
 	m := VGenMessage(3, vr.Param(0))
 	b := VRefEncode(m, vr.Param(1) == 1, vr.Param(2))
+	vr.Output("c05.reference-encoding", b)
 	// expected: transforms filed per type in wire order
 	exp := VCloneMessage(m)
 	if vr.Param(2) != 0 {
